@@ -44,6 +44,31 @@ theorem unet_rows {f : Nat} (hf : f ∈ [8, 16, 24, 32, 64]) {r : Rate} (hr : r 
   · exact absurd h2 h
   · exact h cpb hcpb mid (by cases mid <;> simp [bools])
 
+theorem tableUnetCpb1_all : ∀ f ∈ [8, 16, 24, 32, 64], tableUnetCpb1 f = true := by
+  intro f hf
+  simp only [List.mem_cons, List.not_mem_nil, or_false] at hf
+  rcases hf with rfl | rfl | rfl | rfl | rfl
+  · exact tableUnetCpb1_8
+  · exact tableUnetCpb1_16
+  · exact tableUnetCpb1_24
+  · exact tableUnetCpb1_32
+  · exact tableUnetCpb1_64
+
+theorem unet_rows_cpb1 {f : Nat} (hf : f ∈ [8, 16, 24, 32, 64])
+    {ms : Nat} (hms : ms ∈ [8, 16, 32]) {stem : Nat} (hstem : stem ∈ [2, 4])
+    {bos : Nat} (hbos : bos ∈ strides6) {os : Nat} (hos : os ∈ strides6) (mid : Bool)
+    (h1 : bos ≤ os) (h2 : 2 * os ≤ ms) :
+    wellFormed (mkUnet f ⟨1, 1⟩ ms stem bos os 1 mid) = true := by
+  have t := tableUnetCpb1_all f hf
+  simp only [tableUnetCpb1, List.all_eq_true] at t
+  have := t ms hms stem hstem bos hbos os hos
+  simp only [Bool.or_eq_true, Bool.not_eq_true', Bool.and_eq_false_iff, decide_eq_false_iff_not,
+    List.all_eq_true] at this
+  rcases this with (h | h) | h
+  · exact absurd h1 h
+  · exact absurd h2 h
+  · exact h mid (by cases mid <;> simp [bools])
+
 theorem tableWrap_all : ∀ fam v, (fam = .convnext ∧ v ∈ [0, 1, 2, 3]) ∨ (fam = .swint ∧ v ∈ [0, 1, 2]) →
     tableWrap fam v = true := by
   intro fam v h
@@ -94,24 +119,40 @@ theorem grid_wellFormed (c : Cfg) (hin : inGrid c = true) (hdoc : docValid c = t
       simp only [Bool.and_eq_true, beq_iff_eq, List.contains_iff_mem] at hfam
       obtain ⟨⟨⟨hv, hf⟩, hms⟩, hst⟩ := hfam
       subst hv
-      simp only [supported, decide_eq_true_eq] at hsup
-      have hcpb' : cpb ∈ [2, 3] := by
-        simp only [List.mem_cons, List.not_mem_nil, or_false] at hcpb ⊢; omega
-      exact unet_rows hf hrate hms hst hbos hos hcpb' middle hle (by simpa [Cfg.realMaxStride] using hle2)
+      simp only [supported, Bool.or_eq_true, Bool.and_eq_true, decide_eq_true_eq, beq_iff_eq, bne_iff_ne] at hsup
+      have hle2' : 2 * hd'.os ≤ maxStride := hle2
+      by_cases h2 : 2 ≤ cpb
+      · have hcpb' : cpb ∈ [2, 3] := by
+          simp only [List.mem_cons, List.not_mem_nil, or_false] at hcpb ⊢; omega
+        exact unet_rows hf hrate hms hst hbos hos hcpb' middle hle hle2'
+      · have hc1 : cpb = 1 := by
+          simp only [List.mem_cons, List.not_mem_nil, or_false] at hcpb; omega
+        rcases hsup with h | ⟨hr, hs0⟩
+        · exact absurd h h2
+        · subst hc1 hr
+          have hst' : stem ∈ [2, 4] := by
+            simp only [List.mem_cons, List.not_mem_nil, or_false] at hst ⊢
+            rcases hst with rfl | rfl | rfl
+            · exact absurd rfl hs0
+            · exact Or.inl rfl
+            · exact Or.inr rfl
+          exact unet_rows_cpb1 hf hms hst' hbos hos middle hle hle2'
     | convnext =>
       simp only [Bool.and_eq_true, beq_iff_eq, List.contains_iff_mem] at hfam
-      obtain ⟨⟨⟨⟨hv, hf⟩, hst⟩, hms⟩, hmid⟩ := hfam
-      subst hf hms hmid
-      simp only [supported, beq_iff_eq] at hsup
-      subst hsup
-      exact wrap_rows (Or.inl ⟨rfl, hv⟩) hst hbos hos hcpb hle (by simpa [Cfg.realMaxStride] using hle2)
+      obtain ⟨⟨⟨⟨hv, hf⟩, hst⟩, _hms⟩, hmid⟩ := hfam
+      subst hf hmid
+      simp only [supported, Bool.and_eq_true, beq_iff_eq] at hsup
+      obtain ⟨hr, hms⟩ := hsup
+      subst hr hms
+      exact wrap_rows (Or.inl ⟨rfl, hv⟩) hst hbos hos hcpb hle hle2
     | swint =>
       simp only [Bool.and_eq_true, beq_iff_eq, List.contains_iff_mem] at hfam
-      obtain ⟨⟨⟨⟨hv, hf⟩, hst⟩, hms⟩, hmid⟩ := hfam
-      subst hf hms hmid
-      simp only [supported, beq_iff_eq] at hsup
-      subst hsup
-      exact wrap_rows (Or.inr ⟨rfl, hv⟩) hst hbos hos hcpb hle (by simpa [Cfg.realMaxStride] using hle2)
+      obtain ⟨⟨⟨⟨hv, hf⟩, hst⟩, _hms⟩, hmid⟩ := hfam
+      subst hf hmid
+      simp only [supported, Bool.and_eq_true, beq_iff_eq] at hsup
+      obtain ⟨hr, hms⟩ := hsup
+      subst hr hms
+      exact wrap_rows (Or.inr ⟨rfl, hv⟩) hst hbos hos hcpb hle hle2
   exact key upInterp
 
 end SleapVerif.Arch
